@@ -27,6 +27,7 @@ const roundSeed = 424242
 type blk struct {
 	tmpl     *block.Block
 	attached []*block.VerificationTicket
+	slot     int
 }
 
 type state struct {
@@ -34,7 +35,9 @@ type state struct {
 	fix    *minerfix.Fix
 	k      int
 	blocks map[string]*blk
-	r1     *miner.Round
+	pools  [][]int          // miner sets (key indices) per slot
+	rounds []*miner.Round   // the round of each slot
+	prevs  []*block.Block   // a notarized previous block per slot
 }
 
 func (s *state) close() {
@@ -46,6 +49,11 @@ func (s *state) close() {
 
 func (s *state) ticket(e string) (*block.VerificationTicket, bool) {
 	f := strings.Split(e, ":")
+	upper := false
+	if len(f) == 3 && f[2] == "u" {
+		upper = true
+		f = f[:2]
+	}
 	if len(f) != 2 || len(f[0]) < 2 {
 		return nil, false
 	}
@@ -57,17 +65,21 @@ func (s *state) ticket(e string) (*block.VerificationTicket, bool) {
 	id := ""
 	switch f[0][0] {
 	case 'n':
-		if j < s.k {
-			id = s.fix.Nodes[j].GetKey()
+		if j < len(s.fix.Nodes) {
+			id = s.fix.Nodes[j].GetKey() // a node the process knows; whether it is a miner of the round is the code's business
 		} else {
-			id = fmt.Sprintf("not-a-miner-%d", j)
+			id = fmt.Sprintf("not-a-node-%d", j)
 		}
 	case 'x':
 		id = fmt.Sprintf("foreign-%d", j)
 	default:
 		return nil, false
 	}
-	return &block.VerificationTicket{VerifierID: id, Signature: s.w.Sigs[si].SerializeToHexStr()}, true
+	sg := s.w.Sigs[si].SerializeToHexStr()
+	if upper {
+		sg = strings.ToUpper(sg) // the same curve point, another string
+	}
+	return &block.VerificationTicket{VerifierID: id, Signature: sg}, true
 }
 
 func (s *state) tickets(es string) ([]*block.VerificationTicket, bool) {
@@ -107,7 +119,7 @@ func (s *state) status(name string) string {
 	}
 	hash := b.tmpl.Hash
 	inr := false
-	for _, nb := range s.r1.GetNotarizedBlocks() {
+	for _, nb := range s.rounds[b.slot].GetNotarizedBlocks() {
 		if nb.Hash == hash {
 			inr = true
 		}
@@ -130,47 +142,50 @@ func (s *state) step(ws []string) string {
 		if err != nil || k <= 0 {
 			return "bad-op"
 		}
-		keys := make([]*encryption.BLS0ChainScheme, k)
-		for j := range keys {
-			full := s.w.Keys["n"+strconv.Itoa(j)]
-			if full == nil {
-				return "bad-op"
-			}
-			pub := encryption.NewBLS0ChainScheme()
-			if err := pub.SetPublicKey(full.GetPublicKey()); err != nil {
-				return "bad-op"
-			}
-			keys[j] = pub
+		all := make([]int, k)
+		for j := range all {
+			all[j] = j
 		}
-		s.close()
-		s.fix = minerfix.New(minerfix.Opts{N: k, T: k, Self: 0, ThresholdByCount: 66, Keys: keys, SelfKey: s.w.Keys["n0"]})
-		s.k = k
-		s.blocks = map[string]*blk{}
-		s.r1 = s.fix.Round(1, roundSeed)
-		s.fix.MC.SetCurrentRound(2) // a notarization of round 1 must not start round 2 in the fixture
-		return "ok"
-	case ws[0] == "block" && len(ws) == 4:
-		g, err := strconv.Atoi(ws[2])
-		_, ok := cryptow.ParseFr(ws[3])
-		if s.fix == nil || err != nil || g < 0 || g >= s.k || !ok || s.blocks[ws[1]] != nil {
+		return s.setup([][]int{all}, false)
+	case ws[0] == "miners2" && len(ws) == 3:
+		l0, ok0 := intList(ws[1])
+		l1, ok1 := intList(ws[2])
+		if !ok0 || !ok1 || len(l0) == 0 || len(l1) == 0 || !contains(l0, 0) || hasDup(l0) || hasDup(l1) {
 			return "bad-op"
 		}
-		b := block.NewBlock(config.GetServerChainID(), 1)
+		return s.setup([][]int{l0, l1}, true)
+	case ws[0] == "block" && (len(ws) == 4 || len(ws) == 5):
+		g, err := strconv.Atoi(ws[2])
+		_, ok := cryptow.ParseFr(ws[3])
+		slot := 0
+		if len(ws) == 5 {
+			v, err := strconv.Atoi(ws[4])
+			if err != nil || v < 0 {
+				return "bad-op"
+			}
+			slot = v
+		}
+		if s.fix == nil || err != nil || g < 0 || !ok || s.blocks[ws[1]] != nil || slot >= len(s.pools) || !contains(s.pools[slot], g) {
+			return "bad-op"
+		}
+		r := s.rounds[slot]
+		pb := s.prevs[slot]
+		b := block.NewBlock(config.GetServerChainID(), r.GetRoundNumber())
 		b.MinerID = s.fix.Nodes[g].GetKey()
 		b.SetRoundRandomSeed(roundSeed)
-		b.PrevHash = s.fix.GB.Hash
-		b.SetPreviousBlock(s.fix.GB)
-		b.CreationDate = s.fix.GB.CreationDate + common.Timestamp(1+len(s.blocks))
+		b.PrevHash = pb.Hash
+		b.SetPreviousBlock(pb)
+		b.CreationDate = s.fix.GB.CreationDate + common.Timestamp(2+len(s.blocks))
 		b.ClientStateHash = s.fix.GB.ClientStateHash
-		b.LatestFinalizedMagicBlockRound = 0
-		b.LatestFinalizedMagicBlockHash = s.fix.GB.Hash
+		b.LatestFinalizedMagicBlockRound = s.fix.MBs[slot].StartingRound
+		b.LatestFinalizedMagicBlockHash = s.fix.LFMBs[slot].Hash
 		b.HashBlock()
 		sg, err := s.w.Keys["n"+strconv.Itoa(g)].Sign(b.Hash)
 		if err != nil {
 			return "err"
 		}
 		b.Signature = sg
-		s.blocks[ws[1]] = &blk{tmpl: b}
+		s.blocks[ws[1]] = &blk{tmpl: b, slot: slot}
 		raw, _ := hex.DecodeString(b.Hash)
 		s.w.Msgs["blk-"+ws[1]] = raw
 		return "ok"
@@ -199,7 +214,7 @@ func (s *state) step(ws []string) string {
 		if s.fix == nil || b == nil {
 			return "bad-op"
 		}
-		s.fix.MC.AddRoundBlock(s.r1, b.fresh(true))
+		s.fix.MC.AddRoundBlock(s.rounds[b.slot], b.fresh(true))
 		return s.status(ws[1])
 	case ws[0] == "ticket" && len(ws) == 3:
 		b := s.blocks[ws[1]]
@@ -211,7 +226,7 @@ func (s *state) step(ws []string) string {
 			return "bad-op"
 		}
 		msg := miner.NewBlockMessage(miner.MessageVerificationTicket, s.fix.Nodes[0], nil, nil)
-		msg.BlockVerificationTicket = &block.BlockVerificationTicket{VerificationTicket: *t, Round: 1, BlockID: b.tmpl.Hash}
+		msg.BlockVerificationTicket = &block.BlockVerificationTicket{VerificationTicket: *t, Round: b.tmpl.Round, BlockID: b.tmpl.Hash}
 		s.fix.MC.VerifHandleVerificationTicket(ctx, msg)
 		return s.status(ws[1])
 	case ws[0] == "notarization" && len(ws) == 3:
@@ -226,7 +241,7 @@ func (s *state) step(ws []string) string {
 		if cb, err := s.fix.MC.GetBlock(ctx, b.tmpl.Hash); err != nil || cb == nil {
 			return "bad-op" // an unknown block would be fetched from the network
 		}
-		not := &miner.Notarization{BlockID: b.tmpl.Hash, Round: 1, VerificationTickets: ts}
+		not := &miner.Notarization{BlockID: b.tmpl.Hash, Round: b.tmpl.Round, VerificationTickets: ts}
 		_ = s.fix.MC.VerifNotarizationProcess(ctx, not)
 		return s.status(ws[1])
 	case ws[0] == "nblock" && len(ws) == 2:
@@ -252,6 +267,93 @@ func (s *state) step(ws []string) string {
 		s.blocks = nil
 	}
 	return o
+}
+
+func intList(x string) ([]int, bool) {
+	var r []int
+	for _, e := range strings.Split(x, ",") {
+		v, err := strconv.Atoi(e)
+		if err != nil || v < 0 {
+			return nil, false
+		}
+		r = append(r, v)
+	}
+	return r, true
+}
+
+func contains(l []int, x int) bool {
+	for _, v := range l {
+		if v == x {
+			return true
+		}
+	}
+	return false
+}
+
+func hasDup(l []int) bool {
+	m := map[int]bool{}
+	for _, v := range l {
+		if m[v] {
+			return true
+		}
+		m[v] = true
+	}
+	return false
+}
+
+// setup builds the miner chain: one magic block (blocks live in round 1), or two magic blocks with starting rounds 0 and 100
+// (slot 0 = round 50 under the first, slot 1 = round 200 under the second).
+func (s *state) setup(pools [][]int, two bool) string {
+	top := 0
+	for _, p := range pools {
+		for _, j := range p {
+			if j > top {
+				top = j
+			}
+		}
+	}
+	keys := make([]*encryption.BLS0ChainScheme, top+1)
+	for j := range keys {
+		full := s.w.Keys["n"+strconv.Itoa(j)]
+		if full == nil {
+			return "bad-op"
+		}
+		pub := encryption.NewBLS0ChainScheme()
+		if err := pub.SetPublicKey(full.GetPublicKey()); err != nil {
+			return "bad-op"
+		}
+		keys[j] = pub
+	}
+	s.close()
+	s.fix = minerfix.New(minerfix.Opts{N: top + 1, T: len(pools[0]), Self: 0, ThresholdByCount: 66, Keys: keys, SelfKey: s.w.Keys["n0"], Pools: pools})
+	s.k = top + 1
+	s.pools = pools
+	s.blocks = map[string]*blk{}
+	s.rounds, s.prevs = nil, nil
+	if !two {
+		s.rounds = []*miner.Round{s.fix.Round(1, roundSeed)}
+		s.prevs = []*block.Block{s.fix.GB}
+		s.fix.MC.SetCurrentRound(2) // a notarization of round 1 must not start round 2 in the fixture
+		return "ok"
+	}
+	for slot, rn := range []int64{50, 200} {
+		s.fix.Round(rn-1, roundSeed+1)
+		s.rounds = append(s.rounds, s.fix.Round(rn, roundSeed))
+		// the previous block: notarized and state-computed, so that nothing is fetched or verified for it
+		pb := block.NewBlock(config.GetServerChainID(), rn-1)
+		pb.SetRoundRandomSeed(roundSeed + 1)
+		pb.CreationDate = s.fix.GB.CreationDate + 1
+		pb.ClientStateHash = s.fix.GB.ClientStateHash
+		pb.MinerID = s.fix.Nodes[pools[slot][0]].GetKey()
+		pb.HashBlock()
+		pb.SetBlockNotarized()
+		pb.SetBlockState(block.StateNotarized)
+		pb.SetStateStatus(block.StateSuccessful)
+		pb.ClientState = s.fix.GB.ClientState
+		s.prevs = append(s.prevs, pb)
+	}
+	s.fix.MC.SetCurrentRound(51)
+	return "ok"
 }
 
 func impl(ops []string) []string {
@@ -302,20 +404,72 @@ func genCase(r *rand.Rand, thorough bool, i int) []string {
 	if thorough {
 		maxN = 7
 	}
+	// n keys; one magic block holding all of them, or two magic blocks with different miner sets (a view change)
+	two := r.Intn(3) == 0
 	n := 1 + r.Intn(maxN)
-	thr := (n*66 + 99) / 100
+	var pools [][]int
+	if two {
+		n = 3 + r.Intn(maxN-1)
+		for {
+			var l0, l1 []int
+			l0 = append(l0, 0)
+			for j := 1; j < n; j++ {
+				switch r.Intn(3) {
+				case 0:
+					l0 = append(l0, j)
+				case 1:
+					l1 = append(l1, j)
+				default:
+					l0 = append(l0, j)
+					l1 = append(l1, j)
+				}
+			}
+			if r.Intn(2) == 0 {
+				l1 = append(l1, 0)
+			}
+			if len(l1) > 0 && fmt.Sprint(l0) != fmt.Sprint(l1) {
+				pools = [][]int{l0, l1}
+				break
+			}
+		}
+	} else {
+		all := make([]int, n)
+		for j := range all {
+			all[j] = j
+		}
+		pools = [][]int{all}
+	}
+	thrOf := func(slot int) int { return (len(pools[slot])*66 + 99) / 100 }
 	for j := 0; j < n; j++ {
 		g.add("key n%d %s", j, rndGeneric(r))
 	}
 	g.add("msg junk %s", rndGeneric(r))
-	g.add("miners %d", n)
+	if two {
+		g.add("miners2 %s %s", joinInts(pools[0]), joinInts(pools[1]))
+	} else {
+		g.add("miners %d", n)
+	}
 	nb := 1 + r.Intn(2)
+	if two {
+		nb = 2
+	}
 	names := []string{"a", "b"}[:nb]
-	for _, nm := range names {
-		g.add("block %s %d %s", nm, r.Intn(n), rndGeneric(r))
+	slotOf := map[string]int{}
+	for x, nm := range names {
+		slot := 0
+		if two {
+			slot = x
+		}
+		slotOf[nm] = slot
+		gen := pools[slot][r.Intn(len(pools[slot]))]
+		if two {
+			g.add("block %s %d %s %d", nm, gen, rndGeneric(r), slot)
+		} else {
+			g.add("block %s %d %s", nm, gen, rndGeneric(r))
+		}
 	}
 	junk := g.sig("ksign n0 junk")
-	// per block: the honest tickets
+	// per block: every known node's signature on the block hash (also of nodes that are no miners of the block's round)
 	valid := map[string][]int{}
 	for _, nm := range names {
 		v := make([]int, n)
@@ -325,10 +479,11 @@ func genCase(r *rand.Rand, thorough bool, i int) []string {
 		}
 		valid[nm] = v
 	}
+	member := func(nm string) int { p := pools[slotOf[nm]]; return p[r.Intn(len(p))] }
 	// a ticket expression of a given kind for block nm, verifier j
 	mk := func(nm string, j int, kind int) string {
 		switch kind {
-		case 0: // valid
+		case 0: // the node's valid signature (a valid ticket iff the node is a miner of the block's round)
 			return fmt.Sprintf("n%d:%d", j, valid[nm][j])
 		case 1: // forged: another point
 			g.add("kverify n%d %d blk-%s", j, junk, nm)
@@ -341,10 +496,12 @@ func genCase(r *rand.Rand, thorough bool, i int) []string {
 				g.add("kverify n%d %d blk-%s", j, valid[o][j], nm)
 			}
 			return fmt.Sprintf("n%d:%d", j, valid[o][j])
-		case 4: // another miner's valid signature under this verifier
+		case 4: // another node's valid signature under this verifier
 			k := (j + 1) % n
 			g.add("kverify n%d %d blk-%s", j, valid[nm][k], nm)
 			return fmt.Sprintf("n%d:%d", j, valid[nm][k])
+		case 6: // the valid signature written in upper-case hex
+			return fmt.Sprintf("n%d:%d:u", j, valid[nm][j])
 		default: // perturbed
 			s := g.sig("sigadd %d %d", valid[nm][j], junk)
 			g.add("kverify n%d %d blk-%s", j, s, nm)
@@ -353,20 +510,23 @@ func genCase(r *rand.Rand, thorough bool, i int) []string {
 	}
 	list := func(nm string, count int, mode int) string {
 		var es []string
+		pool := pools[slotOf[nm]]
 		for x := 0; x < count; x++ {
 			j := r.Intn(n)
 			kind := 0
 			switch mode {
 			case 1: // all forged / foreign / duplicated
-				kind = 1 + r.Intn(5)
+				kind = 1 + r.Intn(6)
 			case 2: // mixed
 				if r.Intn(2) == 0 {
-					kind = 1 + r.Intn(5)
+					kind = 1 + r.Intn(6)
 				}
-			case 3: // distinct valid
-				j = x % n
+			case 3: // distinct valid miners of the round
+				j = pool[x%len(pool)]
 			case 4: // one verifier repeated
-				j = 0
+				j = pool[0]
+			case 5: // valid signatures of any known node (members of the other magic block included)
+				j = x % n
 			}
 			es = append(es, mk(nm, j, kind))
 		}
@@ -375,11 +535,55 @@ func genCase(r *rand.Rand, thorough bool, i int) []string {
 		}
 		return strings.Join(es, ",")
 	}
-	cancel := func(nm string) string { // sigma_a + P, sigma_b - P (needs two miners)
-		if n < 2 {
-			return list(nm, thr, 3)
+	distinct := func(nm string, cnt int) ([]string, []int) { // cnt valid tickets of distinct miners of the round
+		p := append([]int(nil), pools[slotOf[nm]]...)
+		r.Shuffle(len(p), func(a, b int) { p[a], p[b] = p[b], p[a] })
+		if cnt > len(p) {
+			cnt = len(p)
 		}
-		p := r.Perm(n)
+		var es []string
+		for _, j := range p[:cnt] {
+			es = append(es, fmt.Sprintf("n%d:%d", j, valid[nm][j]))
+		}
+		return es, p[cnt:]
+	}
+	// thr tickets, only thr-1 distinct verifiers: one ticket repeated with its signature in upper-case hex
+	upperDup := func(nm string) string {
+		thr := thrOf(slotOf[nm])
+		es, _ := distinct(nm, thr-1)
+		if len(es) == 0 {
+			return fmt.Sprintf("n%d:%d", member(nm), valid[nm][member(nm)])
+		}
+		es = append(es, es[r.Intn(len(es))]+":u")
+		r.Shuffle(len(es), func(a, b int) { es[a], es[b] = es[b], es[a] })
+		return strings.Join(es, ",")
+	}
+	// thr tickets, only thr-1 distinct verifiers: one miner's signature s split into s+d and s-d (2s-(s+d))
+	split := func(nm string) string {
+		thr := thrOf(slotOf[nm])
+		if thr < 2 {
+			return upperDup(nm)
+		}
+		es, rest := distinct(nm, thr-2)
+		j := member(nm)
+		if len(rest) > 0 {
+			j = rest[0]
+		}
+		s1 := g.sig("sigadd %d %d", valid[nm][j], junk)
+		s2 := g.sig("sigsub %d %d", valid[nm][j], junk)
+		g.add("kverify n%d %d blk-%s", j, s1, nm)
+		g.add("kverify n%d %d blk-%s", j, s2, nm)
+		es = append(es, fmt.Sprintf("n%d:%d", j, s1), fmt.Sprintf("n%d:%d", j, s2))
+		r.Shuffle(len(es), func(a, b int) { es[a], es[b] = es[b], es[a] })
+		return strings.Join(es, ",")
+	}
+	cancel := func(nm string) string { // sigma_a + P, sigma_b - P (needs two miners)
+		pool := pools[slotOf[nm]]
+		if len(pool) < 2 {
+			return list(nm, thrOf(slotOf[nm]), 3)
+		}
+		p := append([]int(nil), pool...)
+		r.Shuffle(len(p), func(a, b int) { p[a], p[b] = p[b], p[a] })
 		a := g.sig("sigadd %d %d", valid[nm][p[0]], junk)
 		b := g.sig("sigsub %d %d", valid[nm][p[1]], junk)
 		g.add("kverify n%d %d blk-%s", p[0], a, nm)
@@ -390,15 +594,27 @@ func genCase(r *rand.Rand, thorough bool, i int) []string {
 		}
 		return strings.Join(es, ",")
 	}
+	special := func(nm string) string { // the crafted ticket lists
+		switch r.Intn(4) {
+		case 0:
+			return cancel(nm)
+		case 1:
+			return upperDup(nm)
+		case 2:
+			return split(nm)
+		default:
+			return list(nm, thrOf(slotOf[nm])+r.Intn(2), 5)
+		}
+	}
 	steps := 4 + r.Intn(10)
 	for x := 0; x < steps; x++ {
 		nm := names[r.Intn(nb)]
 		switch y := r.Intn(100); {
 		case y < 22:
-			g.add("ticket %s %s", nm, mk(nm, r.Intn(n), []int{0, 0, 0, 1, 2, 3, 4, 5}[r.Intn(8)]))
+			g.add("ticket %s %s", nm, mk(nm, r.Intn(n), []int{0, 0, 0, 1, 2, 3, 4, 5, 6, 6}[r.Intn(10)]))
 		case y < 40:
 			cnt := r.Intn(n + 2)
-			mode := r.Intn(5)
+			mode := r.Intn(6)
 			if r.Intn(3) == 0 {
 				cnt, mode = 0, 0 // the honest case: nothing attached
 			}
@@ -406,21 +622,22 @@ func genCase(r *rand.Rand, thorough bool, i int) []string {
 			g.add("propose %s", nm)
 		case y < 52:
 			if r.Intn(2) == 0 {
-				g.add("attach %s %s", nm, list(nm, r.Intn(n+1), r.Intn(5)))
+				g.add("attach %s %s", nm, list(nm, r.Intn(n+1), r.Intn(6)))
 			}
 			g.add("know %s", nm)
 		case y < 70:
+			g.add("attach %s -", nm)
 			g.add("know %s", nm)
-			if r.Intn(4) == 0 {
-				g.add("notarization %s %s", nm, cancel(nm))
+			if r.Intn(2) == 0 {
+				g.add("notarization %s %s", nm, special(nm))
 			} else {
-				g.add("notarization %s %s", nm, list(nm, 1+r.Intn(n+1), r.Intn(5)))
+				g.add("notarization %s %s", nm, list(nm, 1+r.Intn(n+1), r.Intn(6)))
 			}
 		case y < 88:
-			if r.Intn(4) == 0 {
-				g.add("attach %s %s", nm, cancel(nm))
+			if r.Intn(2) == 0 {
+				g.add("attach %s %s", nm, special(nm))
 			} else {
-				g.add("attach %s %s", nm, list(nm, r.Intn(n+2), r.Intn(5)))
+				g.add("attach %s %s", nm, list(nm, r.Intn(n+2), r.Intn(6)))
 			}
 			g.add("nblock %s", nm)
 		default:
@@ -433,8 +650,16 @@ func genCase(r *rand.Rand, thorough bool, i int) []string {
 	return g.ops
 }
 
+func joinInts(xs []int) string {
+	s := make([]string, len(xs))
+	for i, x := range xs {
+		s[i] = strconv.Itoa(x)
+	}
+	return strings.Join(s, ",")
+}
+
 func genMalformed(r *rand.Rand) []string {
-	return []string{"dkg 0 0", "key n0 5", "msg junk 3", "miners 0", "miners 2", "miners 1", "block a 3 7", "block a 0 7", "block a 0 7", "attach b -", "attach a q:1", "propose b", "ticket a n0:99", "notarization a -", "notarization a n0:0", "status zz", "frob"}
+	return []string{"dkg 0 0", "key n0 5", "msg junk 3", "miners 0", "miners 2", "miners2 1 0", "miners2 0 5", "miners 1", "block a 3 7", "block c 0 7 1", "block a 0 7", "block a 0 7", "attach b -", "attach a q:1", "propose b", "ticket a n0:99", "notarization a -", "notarization a n0:0", "status zz", "frob"}
 }
 
 func genAll(r *rand.Rand, thorough bool, i int) []string {
@@ -460,6 +685,21 @@ func main() {
 			// the same forged ticket twice
 			{"dkg 0 0", "key n0 11", "key n1 13", "key n2 17", "msg junk 9", "miners 3", "block a 1 5", "ksign n0 junk", "kverify n2 0 blk-a",
 				"attach a n2:0,n2:0", "propose a"},
+			// four miners, threshold 3: "2 distinct + upper-case copy" and "1 honest + split ticket" must be refused by VerifyNotarization
+			{"dkg 0 0", "key n0 11", "key n1 13", "key n2 17", "key n3 19", "msg junk 9", "miners 4", "block a 1 5", "block b 2 6", "ksign n0 junk",
+				"ksign n0 blk-a", "ksign n1 blk-a", "kverify n0 1 blk-a", "kverify n1 2 blk-a", "attach a n0:1,n1:2,n1:2:u", "nblock a",
+				"ksign n0 blk-b", "ksign n1 blk-b", "kverify n0 3 blk-b", "sigadd 4 0", "sigsub 4 0", "kverify n1 5 blk-b", "kverify n1 6 blk-b",
+				"attach b n0:3,n1:5,n1:6", "nblock b", "attach b -", "know b", "notarization b n0:3,n1:5,n1:6"},
+			// two magic blocks (view change at round 100): MB0 = n0..n3, MB1 = n0,n1,n4,n5; valid signatures of miners of the OTHER magic block
+			{"dkg 0 0", "key n0 11", "key n1 13", "key n2 17", "key n3 19", "key n4 23", "key n5 29", "msg junk 9", "miners2 0,1,2,3 0,1,4,5",
+				"block a 1 5 0", "block b 4 6 1",
+				"ksign n0 blk-a", "ksign n4 blk-a", "ksign n5 blk-a", "kverify n0 0 blk-a", "kverify n4 1 blk-a", "kverify n5 2 blk-a",
+				"attach a n0:0,n4:1,n5:2", "nblock a", "ticket a n5:2", "know a", "ticket a n5:2", "notarization a n0:0,n4:1,n5:2",
+				"ksign n0 blk-b", "ksign n2 blk-b", "ksign n3 blk-b", "kverify n0 3 blk-b", "kverify n2 4 blk-b", "kverify n3 5 blk-b",
+				"attach b n0:3,n2:4,n3:5", "nblock b", "ksign n4 blk-b", "ksign n5 blk-b", "kverify n4 6 blk-b", "kverify n5 7 blk-b", "attach b n0:3,n4:6,n5:7", "nblock b"},
+			// the same valid ticket in two encodings while the block is unknown, then the (clean) proposal arrives
+			{"dkg 0 0", "key n0 11", "key n1 13", "key n2 17", "msg junk 9", "miners 3", "block a 1 5", "ksign n2 blk-a", "kverify n2 0 blk-a",
+				"ticket a n2:0", "ticket a n2:0:u", "attach a -", "propose a", "status a"},
 			// honest run: tickets arrive one by one
 			{"dkg 0 0", "key n0 11", "key n1 13", "key n2 17", "msg junk 9", "miners 3", "block a 1 5", "ksign n0 blk-a", "ksign n1 blk-a", "kverify n0 0 blk-a", "kverify n1 1 blk-a",
 				"attach a -", "propose a", "know a", "ticket a n0:0", "ticket a n0:0", "ticket a n1:1", "status a"},
